@@ -40,11 +40,16 @@ TEXT = {
           "is the state before or after (crash_atomic_*), and re-delivery from either state reaches the crash-free state; "
           "negative witness for the per-key plan (finding F6, fixed). Tied to the code without call-site hooks: the journal "
           "of the live database gives the real write sequence, which is compared with the model's plan, and every cut point "
-          "is materialised as a crash image and checked.",
+          "is materialised as a crash image and checked - between two writes, and inside one write (the journal record of a "
+          "commit reaches the file in 32 KiB blocks, one system call each: images cut at the block boundaries inside the "
+          "record, inside chunks and chunk headers, at arbitrary offsets, with zero / arbitrary tails); every image is "
+          "opened by the real NewLevelDBManager first, as a restarting node does.",
   "design_ref": "§3 C08",
-  "note": "leveldb's batch atomicity and journal recovery are trusted; fsync/power-loss durability is out of scope "
+  "note": "leveldb's batch atomicity is trusted; its journal recovery is executed for real on every torn image (the node "
+          "must reopen and find the state before), not modelled; fsync/power-loss durability is out of scope "
           "(the property speaks of process death).",
-  "technique": "Lean 4 proof about the write plan + journal-derived crash images (fault enumeration at every write boundary)",
+  "technique": "Lean 4 proof about the write plan + journal-derived crash images (fault enumeration at every write boundary "
+               "and at the system-call boundaries inside a write)",
  },
  "C10": {
   "text": "Per contract a Lean state machine that follows the Go ReceiveBlock code; kernel-checked: the sum of recorded "
